@@ -1,5 +1,5 @@
 \* exhaustive (thorough): every action group, P Q R V Z, three objects, all hand files, depth 4, no plan
-CONSTANTS MaxObj = 3  MaxLevel = 4  HandFiles <- McHandFiles  Styles <- StylesAll  CopyKinds <- KindsAll  Ops <- OpsAll  Generic <- GenQR
+CONSTANTS MaxObj = 3  MaxLevel = 4  HandFiles <- McHandFilesAll  Styles <- StylesAll  CopyKinds <- KindsAll  Ops <- OpsAll  Generic <- GenQR
 INIT Init
 NEXT Next
 CONSTRAINT Bound
@@ -21,4 +21,5 @@ INVARIANT UnknownNamesAreReportedAndIgnored
 INVARIANT OthersUntouched
 INVARIANT CopiesStartEqual
 INVARIANT AdHocStaysWithTheCopy
+INVARIANT LateSettingOnlyWhereItExists
 CHECK_DEADLOCK FALSE
